@@ -51,23 +51,67 @@ Proof.
   rewrite app_nil_r. reflexivity.
 Qed.
 
-(* the first backup of a path in a run: an existing target is moved there as it is (bytes and mode), an absent one gives
-   an empty file; the name is remembered *)
-Theorem backup_holds_original o st p w st' w' :
-  existsb (str_eqb (backup_name o p)) (backed_up st) = false ->
-  make_backup_for o st p w = (Ok st', w') ->
-  backed_up st' = backup_name o p :: backed_up st /\
+(* making directories only adds directories: every entry that was there stays as it was *)
+Definition extends (m m' : fsmap) : Prop := forall q n, lookup m q = Some n -> lookup m' q = Some n.
+
+Lemma extends_refl m : extends m m. Proof. intros q n H; exact H. Qed.
+Lemma extends_trans a b c : extends a b -> extends b c -> extends a c. Proof. intros H1 H2 q n H. auto. Qed.
+
+Lemma mkdir_extends m um d m' : exec_op m um (OMkdir d) = inl m' -> extends m m'.
+Proof.
+  cbn [exec_op]. destruct (lookup m d) eqn:L; [discriminate|]. destruct (parent_ok m d true); [|discriminate].
+  intros [= <-] q n H. rewrite lookup_upd_other; [exact H|]. intros ->. congruence.
+Qed.
+
+Lemma mkdirs_extends : forall ds w r w', mkdirs ds w = (r, w') -> extends (fs w) (fs w').
+Proof.
+  induction ds as [|d ds IH]; intros w r w' H; cbn [mkdirs] in H.
+  - inversion H. apply extends_refl.
+  - unfold mbind in H. destruct (perform (OMkdir d) w) as [[e|ex] w1] eqn:P.
+    + assert (E1 : extends (fs w) (fs w1)).
+      { destruct (perform_ok _ _ _ _ P) as [[_ X]|(e0 & _ & X)]; [eapply mkdir_extends; eauto|rewrite X; apply extends_refl]. }
+      destruct e as [e|]; [destruct e|]; try (inversion H; subst; exact E1); (eapply extends_trans; [exact E1|eapply IH; eauto]).
+    + unfold perform in P. destruct (fault w) as [[|k]|]; [discriminate| |]; destruct (exec_op (fs w) (umask w) (OMkdir d)); discriminate.
+Qed.
+
+Lemma ensure_extends p w r w' : ensure_parent_directories p w = (r, w') -> extends (fs w) (fs w').
+Proof.
+  unfold ensure_parent_directories. destruct (is_nil p); [intros [= <- <-]; apply extends_refl|]. apply mkdirs_extends.
+Qed.
+
+Lemma parent_ok_extends m m' p nw : extends m m' -> parent_ok m p nw = true -> parent_ok m' p nw = true.
+Proof.
+  intros E. unfold parent_ok. destruct (parent p) as [[|c d]|]; auto.
+  destruct (lookup m (c :: d)) as [[x y|y|t|y]|] eqn:L; try discriminate. rewrite (E _ _ L). auto.
+Qed.
+
+Lemma stat_extends m m' p n : extends m m' -> stat m p = Some n -> stat m' p = Some n.
+Proof.
+  intros E. unfold stat. destruct (parent_ok m p false) eqn:A; cbn [negb]; [|discriminate].
+  rewrite (parent_ok_extends _ _ _ _ E A). cbn [negb].
+  destruct (lookup m p) as [[x y|y|t|y]|] eqn:L; try discriminate; rewrite (E _ _ L); auto.
+  destruct (lookup m (link_target p t)) as [[x2 y2|y2|t2|y2]|] eqn:L2; try discriminate; rewrite (E _ _ L2); auto.
+Qed.
+
+Lemma exists_extends m m' p : extends m m' -> exists_ m p = true -> exists_ m' p = true.
+Proof. intros E. unfold exists_. destruct (stat m p) eqn:S; [|discriminate]. rewrite (stat_extends _ _ _ _ E S). auto. Qed.
+
+(* the first backup of a path in a run, once the directory for it is there: an existing target is moved there as it is
+   (bytes and mode), an absent one gives an empty file *)
+Theorem backup_holds_original st' p b w st1 w' :
+  backup_core st' p b w = (Ok st1, w') ->
+  st1 = st' /\
   (exists_ (fs w) p = true ->
-     exists n, lookup (fs w) p = Some n /\ lookup (fs w') (backup_name o p) = Some n /\
-               (p <> backup_name o p -> lookup (fs w') p = None)) /\
+     exists n, lookup (fs w) p = Some n /\ lookup (fs w') b = Some n /\
+               (p <> b -> lookup (fs w') p = None)) /\
   (exists_ (fs w) p = false ->
-     match lookup (fs w) (backup_name o p) with
+     match lookup (fs w) b with
      | Some (Sym _) => True
-     | _ => exists mode, lookup (fs w') (backup_name o p) = Some (Reg [] mode)
+     | _ => exists mode, lookup (fs w') b = Some (Reg [] mode)
      end).
 Proof.
-  intros Hn. unfold make_backup_for. rewrite Hn. unfold mbind at 1. cbn [get_fs].
-  set (b := backup_name o p). destruct (exists_ (fs w) p) eqn:Ex.
+  unfold backup_core. unfold mbind at 1. cbn [get_fs].
+  destruct (exists_ (fs w) p) eqn:Ex.
   - unfold mbind. destruct (checked (ORename p b) w) as [[[]|e] w1] eqn:C; [|discriminate].
     cbn [mret]. intros [= <- <-]. split; [reflexivity|]. split; [|discriminate]. intros _.
     apply checked_ok in C. cbn [exec_op] in C.
@@ -82,6 +126,14 @@ Proof.
     + destruct (parent_ok (fs w) b false && owner_w md); [|discriminate]. inversion C as [C']. eexists. apply lookup_upd_same.
     + destruct (parent_ok (fs w) b true); [|discriminate]. inversion C as [C']. eexists. apply lookup_upd_same.
 Qed.
+
+(* make_backup_for = remember the name, make the directory the backup goes to (only adding directories), then the above *)
+Theorem make_backup_for_shape o st p :
+  existsb (str_eqb (backup_name o p)) (backed_up st) = false ->
+  make_backup_for o st p =
+  (let! _ := ensure_parent_directories (backup_name o p) in
+   backup_core (mkDS (had_failure st) (backup_name o p :: backed_up st) (deferred_writes st) (deferred_removals st) (events st)) p (backup_name o p)).
+Proof. intros H. unfold make_backup_for. rewrite H. reflexivity. Qed.
 
 (* several patches of one run to the same file: only the first of them takes the backup *)
 Theorem backup_only_once o st p :
